@@ -4,17 +4,17 @@ import TakVerif.Proofs.Norm
 the guarded panic site is unreachable. -/
 namespace Tak
 
-/-- an error that is not a panic -/
+/-- an error that is not a panic, and a `hang` only if some `analyze` call ran out of flood fuel -/
 def Err.benign : Err → Prop
   | .illegal _ => True
-  | .hang s => s = "analyze"
+  | .hang _ => ∃ p' : Pos, p'.analyze = none
   | .panic _ => False
 
 theorem finish_err {p : Pos} {e : Err} (h : finish p = .error e) : e.benign := by
   unfold finish at h
   split at h
   · cases h
-  · cases h; rfl
+  · rename_i hn; cases h; exact ⟨p, hn⟩
 
 theorem enterSquare_err {next : Pos} {top : Piece} {ct i : Nat} {e : Err}
     (h : enterSquare next top ct i = .error e) : e.benign := by
